@@ -256,6 +256,21 @@ pub fn run_c03(o: &Opts, drv: &mut Driver, rep: &mut Report) {
             k += 1;
         }
     }
+    // a value ON THE WIRE that is zero: with the choice vector and padding equal to the XOR of one tree's leaf expansions the row
+    // u_i of the honest first-round message is all-zero (read off a first run with all-zero choices and tape); also all rows
+    // but one non-zero.  An all-zero row is an ordinary honest value.
+    for (n, tree) in [0usize, 37, NB - 1].into_iter().enumerate() {
+        let sid = gen_sid(&mut rng, n);
+        let sd = synthetic_seeds(&mut rng);
+        let zero_tape = vec![0u8; PAD + 8];
+        let Some(o0) = run_recv(&sid, &sd.s, &[0u8; L_BYTES], &zero_tape) else { continue };
+        let row = &o0.r1[tree * L_PRIME_BYTES..(tree + 1) * L_PRIME_BYTES];
+        let mut choices = [0u8; L_BYTES]; choices.copy_from_slice(&row[..L_BYTES]);
+        let mut tape = zero_tape.clone(); tape[..PAD].copy_from_slice(&row[L_BYTES..]);
+        rep.hist("zero-on-the-wire:u-row");
+        let c = Case { sid, sd, choices, tape, tag: "choices = XOR of one tree's expansions (u row all-zero)".into() };
+        honest(drv, rep, "honest", &c, true);
+    }
     // correspondence only: punctured index outside 0..Q (the code has a FIXME about the range); no predicate
     for v in [16u8, 31, 255] {
         let mut sd = synthetic_seeds(&mut rng);
@@ -622,6 +637,26 @@ pub fn run_c04(o: &Opts, drv: &mut Driver, rep: &mut Report) {
         let pats = choice_patterns(&mut rng);
         c.choices = pats[k % pats.len()].1; c.tag = pats[k % pats.len()].0.into();
         honest(drv, rep, "honest", &c, true);
+    }
+    // ---- "replayed from another session" through the OTHER public entry point that reaches the sender's check: the VOLE sender
+    //      (crates/sl-oblivious/src/rvole.rs) takes its session id as a byte string of any length
+    for k in 0..(if o.tier == "thorough" { 6 } else { 2 }) {
+        let mut c = fresh_case(&mut rng, k, Delta::Random, "rvole-entry");
+        c.sid = { let mut s: Vec<u8> = (0..32).map(|_| rng.gen()).collect(); s[31] = 0; s };
+        let Some(o1) = run_recv(&c.sid, &c.sd.s, &c.choices, &c.tape) else { continue };
+        let a = [k256::Scalar::from(3u64 + k as u64), k256::Scalar::from(5u64)];
+        let via_rvole = |sid: &[u8]| -> Option<bool> { catch_unwind(AssertUnwindSafe(|| {
+            let m: Box<Round1Output> = Box::new(bytemuck::pod_read_unaligned(&o1.r1));
+            let mut out = Box::new(sl_oblivious::rvole::RVOLEOutput::default());
+            sl_oblivious::rvole::RVOLESender::process(sid, &c.sd.r, &a, &m, &mut out, &mut rand::thread_rng()).is_ok() })).ok() };
+        let req = format!("c04 rvole-entry {}", hexw(&c.sid));
+        let idx = rep.case("rvole-entry", Some(&req));
+        if via_rvole(&c.sid) != Some(true) { rep.pred_fail(Failure { stream: "rvole-entry".into(), index: idx, request: vec![req.clone()], impl_out: "rejected".into(), model_out: "accepted".into(), key: "ss:rvole-entry:honest-rejected".into(), what: "RVOLESender::process rejects an honest round-one message made under the same 32-byte session id".into() }); }
+        for (name, rel) in [("id+01", [&c.sid[..], &[1u8][..]].concat()), ("id+00", [&c.sid[..], &[0u8][..]].concat()), ("id-without-trailing-zero", c.sid[..31].to_vec()), ("id-first-16", c.sid[..16].to_vec()), ("empty", vec![])] {
+            rep.hist(&format!("rvole-entry:related-session-id:{name}"));
+            if via_rvole(&rel) != Some(false) { rep.pred_fail(Failure { stream: "rvole-entry".into(), index: idx, request: vec![req.clone(), format!("related id {name} = {}", hexw(&rel))], impl_out: "accepted (or panic)".into(), model_out: "AbortProtocolAndBanReceiver".into(), key: format!("ss:replayed-session:{name}"),
+                what: format!("a first-round message made for one session id is accepted by RVOLESender::process run under the related id `{name}`") }); }
+        }
     }
     let t0 = std::time::Instant::now();
     tamper_stream(o, drv, rep);
